@@ -46,7 +46,7 @@ from dataclasses import dataclass
 from typing import Any
 
 __all__ = [
-    'Ok', 'Fail', 'Unspecified', 'UNSPEC', 'Unsupported', 'SemanticFail', 'evaluate', 'admissible_outcomes',
+    'Ok', 'Fail', 'Unspecified', 'UNSPEC', 'Unsupported', 'SemanticFail', 'evaluate', 'evaluate_info', 'admissible_outcomes',
     'same_value', 'has_unspec', 'to_model', 'to_text', 'wellformed', 'names_of', 'POLICIES', 'DEFAULT_POLICY',
     'node_count', 'kinds_of', 'rule_names', 'normalize',
 ]
@@ -288,6 +288,7 @@ class _Evaluator:
         self.pat_cache = {}
         self.used_policy = set()  # which open aspects were actually exercised
         self.depth = 0
+        self.matched = False  # some terminal matched at least one character
 
     # ---- lexical layer -------------------------------------------------------------------------
     def ws(self, p):
@@ -329,6 +330,7 @@ class _Evaluator:
         q = p + len(t)
         if self.nameguard and self.token_is_name(t) and q < self.n and self.is_name_char(self.text[q]):
             return _NOCUT
+        self.matched = True
         return q, [t], [], _NOCUT
 
     def e_pat(self, e, pos):
@@ -346,6 +348,8 @@ class _Evaluator:
             v = g[0]
         else:
             v = tuple(g)
+        if m.end() > pos:
+            self.matched = True
         return m.end(), [v], [], _NOCUT
 
     def e_const(self, e, pos):
@@ -366,6 +370,7 @@ class _Evaluator:
     def e_dot(self, e, pos):
         if pos >= self.n:
             return _NOCUT
+        self.matched = True
         return pos + 1, [self.text[pos]], [], _NOCUT
 
     def e_emptyclosure(self, e, pos):
@@ -739,6 +744,14 @@ def evaluate(grammar_desc, text, start=None, **config):
     policy {aspect: choice} (see POLICIES), group_cut_scope (syntax.rst: True).
     -> Ok(value, endpos) | Fail() | Unspecified(why); raises Unsupported."""
     return _outcome(_Evaluator(grammar_desc, text, **config), start)
+
+
+def evaluate_info(grammar_desc, text, start=None, **config):
+    """-> (outcome, info): info['matched'] some terminal matched >= 1 character (also on paths that were
+    backtracked), info['open'] the open aspects (POLICIES) the evaluation reached"""
+    ev = _Evaluator(grammar_desc, text, **config)
+    out = _outcome(ev, start)
+    return out, {'matched': ev.matched, 'open': frozenset(ev.used_policy)}
 
 
 def admissible_outcomes(grammar_desc, text, start=None, **config):
